@@ -11,8 +11,9 @@ Validators, chains, remote addresses, traits and chain types are naturals. The s
 (status / jailed / tokens per validator, in store order) is an *input* (`setStaking`): the
 Cosmos staking module is not modelled. Whether the relayer assignment
 (`PickValidatorForMessage`) succeeds for a chain is an input of the publishing operations.
-Powers use the INTEGER semantics the property demands, `⌊share · 2^32 / total⌋`
-(tools/patches/c10_integer_powers.patch); the pinned tree computed them in float64.
+Powers are `⌊share · 2^32 / total⌋` (repo fix a6dfde52; the pinned tree computed them in float64)
+and a validator is listed once per chain (repo fix 8962e1ca; the pinned tree listed it once per
+matching account).
 Core Lean only.
 -/
 namespace Paloma.Valset
@@ -235,11 +236,16 @@ def sortDesc (l : List Val) : List Val := l.foldl (fun acc x => insDesc x acc) [
 /-- power of one validator: `⌊share · 2^32 / total⌋`, and 0 for `total = 0` -/
 def power (share total : Nat) : Nat := share * maxPower / total
 
+/-- the validator's EVM accounts on `chain`, in registration order -/
 def matching (chain : Nat) (v : Val) : List Acct :=
   v.accts.filter (fun a => isEvm a.ctype && a.chain == chain)
 
+/-- the account that represents the validator on `chain`: the FIRST matching one (the loop over
+the accounts `break`s after the first match, so a validator is listed at most once) -/
+def chosen (chain : Nat) (v : Val) : List Acct := (matching chain v).take 1
+
 def membersOf (chain total : Nat) (v : Val) : List (Nat × Nat) :=
-  (matching chain v).map (fun a => (a.addr, power v.share total))
+  (chosen chain v).map (fun a => (a.addr, power v.share total))
 
 /-- `transformSnapshotToCompass` -/
 def transform (snap : Snapshot) (chain : Nat) : Valset :=
